@@ -217,6 +217,16 @@ def r2_project_grid(ctx):
         ctx.add("R2", PG + "|paths", "UNDECIDED", "expected at least 4 return paths", fn=PG)
 
 
+def r_grid_form(ctx):
+    from . import c15
+    ctx.alias = {"R4": "R1"}
+    try:
+        c15.r4_grid_coordinates(ctx)
+    finally:
+        ctx.alias = {}
+
+
 def check(ctx):
+    r_grid_form(ctx)
     r1_hull(ctx)
     r2_project_grid(ctx)
